@@ -83,16 +83,6 @@ type adapter struct {
 	cheapRaw func(e *entry) bool
 }
 
-func (a *adapter) serializableTypes() []string {
-	var out []string
-	for _, t := range a.types {
-		if t != "RsaSsaPss" { // salt length 0 cannot be serialized, and monitoring serializes every key
-			out = append(out, t)
-		}
-	}
-	return out
-}
-
 func same(got, want []byte, err error) error {
 	if err != nil {
 		return err
